@@ -10,7 +10,7 @@ LOOP_STUBS = [
     "SendableChooser stub returns the default option; SmartDashboard 'Auto Selector' string absent",
 ]
 LOOP_ASSUME = [
-    "robot layouts are the enumerated programs R1 (2 components), R2 (3 components, inherited hooks), R3 (inherited robot class), R4 (a StateMachine component between plain ones), R6 (components lacking some or all optional hooks declared first)",
+    "robot layouts are the enumerated programs R1 (2 components), R2 (3 components, inherited hooks), R3 (inherited robot class), R4 (a StateMachine component between plain ones), R6 (components lacking some or all optional hooks declared first), R0 (no components)",
     "callbacks only log (and raise when the fault plan says so)",
     "single-threaded: endCompetition from another thread is a flag flip at a refresh point",
 ]
@@ -58,7 +58,7 @@ class C05(LoopSpec):
                     mkjob("R3", 3, True, period=0.05, sym_body=["periodic"]), mkjob("R4", 3, True),
                     mkjob("R2", 3, True, fms=True, faults=1, fault_patterns=["later", "always"], fault_sites=["c1.execute", "c2.execute", "robot.teleopPeriodic"]),
                     # feedback publishers, own and inherited (R2: c2's class inherits c1's getter)
-                    mkjob("R2", 3, True, with_feedbacks=True), mkjob("R6", 2, True)]
+                    mkjob("R2", 3, True, with_feedbacks=True), mkjob("R6", 2, True), mkjob("R0", 4, True)]
         return [mkjob("R1", 5, True, sym_body=["periodic"]), mkjob("R2", 6, True), mkjob("R3", 6, False), mkjob("R2", 4, True, with_feedbacks=True), mkjob("R6", 4, True),
                 mkjob("R2", 5, True, sym_shutdown=True), mkjob("R1", 4, True, raw_words=True),
                 mkjob("R3", 3, True, change_at_dispatch=True), mkjob("R1", 4, True, period="sym", sym_body=["periodic"]),
@@ -99,7 +99,7 @@ class C06(LoopSpec):
             return [mkjob("R1", 4, True), mkjob("R2", 4, True, sym_shutdown=True), mkjob("R3", 4, False), mkjob("R4", 4, True), mkjob("R6", 3, True),
                     mkjob("R1", 3, True, with_feedbacks=True), mkjob("R3", 3, False, with_feedbacks=True),
                     mkjob("R2", 3, True, fms=True, faults=1, fault_patterns=["first", "always"],
-                          fault_sites=["c1.on_disable", "c1.on_enable", "c2.on_disable", "c2.on_enable"]),
+                          fault_sites=["c1.on_disable", "c1.on_enable", "c2.on_disable", "c2.on_enable", "c1.execute", "c3.execute"]),
                     # a mode's own init hook fails (FMS): the mode is still entered and left like any other
                     mkjob("R1", 3, True, fms=True, faults=1, fault_patterns=["first", "always"],
                           fault_sites=["robot.autonomousInit", "robot.teleopInit", "robot.disabledInit", "robot.testInit", "auto.on_enable"])]
@@ -146,6 +146,8 @@ class C07(LoopSpec):
                     mkjob("R1", 3, True, fms="per-refresh", faults=1, fault_patterns=["always"]),
                     # faults that are not Exception subclasses (SystemExit-like) are user-callback exceptions too
                     mkjob("R2", 3, True, fms="sym", faults=1, fault_patterns=["first"], fault_kind="base"),
+                    mkjob("R1", 2, True, fms="sym", faults=1, fault_patterns=["first"], fault_kind="kbd",
+                          fault_sites=["c1.execute", "robot.teleopPeriodic", "robot.disabledPeriodic", "auto.on_iteration", "c2.on_enable"]),
                     # a hook that is a C-implemented callable and raises (its traceback has no frame of its own)
                     mkjob("R1", 3, True, fms=True, c_raiser="c1.on_enable"), mkjob("R1", 2, True, fms=True, c_raiser="c1.on_disable"),
                     # two faulty sites without the FMS: the first exception ends the program, nothing else of the user's runs
